@@ -23,13 +23,22 @@ RULE = ('random categorical series (N <= 14 dumps, <= 8 events incl. one event p
         '(siblings and parent must not change), remove_repeats, the remove/align/add(0) label pipeline; malformed '
         'arguments (unsorted / duplicate / empty / out-of-range segments, wrong-length masks, out-of-range dumps) are '
         'mixed in; a separate stream uses float series with NaN objects (oracle: per-dump list only); a third stream '
-        'calls unique_in_order directly (hashable and tokenize paths, with and without return_inverse). A case is '
+        'calls unique_in_order directly (hashable and tokenize paths, with and without return_inverse); a fourth stream '
+        'runs histories of 3-10 operations over SEVERAL containers (independent series, parents, parts of partition, '
+        'results of concatenate of 1-3 parts; interleaved add / remove / add_unmatched / align / remove_repeats) and '
+        'compares the value of EVERY container after every operation with the heap model + model-free aliasing oracles '
+        '(no other container changed, a raising call changed nothing, the caller\'s event array never written). Value '
+        'kind arrayx = ndarrays that differ only in shape / dtype with equal raw bytes (identity = dtype, shape, '
+        'contents), wrapped or bare; add() events include -2, -1, N, N+1, N+3 (documented answer: IndexError). A case is '
         'one (series, operation sequence); non-trivial when the series has >= 2 events and the sequence has >= 2 '
         'operations at least one of which mutates; distinct by (kind, values, events, operations)')
 ASSUMPTIONS = ['constructor contract: events strictly increasing, one more event than values (the first event need not '
-               'be dump 0); segment arguments strictly increasing (documented); add(event) with event >= N, empty / '
+               'be dump 0); segment arguments strictly increasing (documented); empty / '
                'unsorted / duplicate segment lists, wrong-length masks are out of domain (only "exception or same as '
-               'model" is demanded, behaviour proved in C11_add_outside / C11_getitem_wrong_mask)',
+               'model" is demanded, behaviour proved in C11_getitem_wrong_mask); add(event) outside 0 <= event < N is IN '
+               'domain since katdal d362220: IndexError and nothing changed (C11_add_total)',
+               'numpy fancy / boolean-mask indexing, np.r_, np.unique, np.concatenate return new arrays, basic slicing '
+               'returns views (the storage discipline of Model/CategoricalH.v): exercised, not verified',
                'identity-based NaN handling of Python dicts is not modelled: in the NaN stream only the per-dump list '
                'is compared', 'numpy searchsorted/argmin/unique/nonzero/r_/slice assignment are modelled (count of <=, '
                'first minimum, sorted distinct, filter, fill), not verified; Python slice.indices+range is compared '
@@ -50,7 +59,18 @@ POOLS = {
     'tuple': [(0, 1), (0, 2), (1, 0), (1, 1), (2, 0)],
     'list': [[0, 1], [0, 2], [1, 0], [1, 1], [2, 0]],
     'array': [[0, 1], [0, 2], [1, 0], [1, 1], [2, 0]],
+    # array values that differ ONLY in shape / dtype: ids 0,1 have the same 32 raw bytes, ids 2,3,4 the same 8 raw bytes;
+    # pairwise different shapes, so np.array_equal (ComparableArrayWrapper.__eq__) tells all five apart
+    'arrayx': [([0.0, 1.0, 2.0, 3.0], '<f8', (4,)), ([0.0, 1.0, 2.0, 3.0], '<f8', (2, 2)),
+               ([1, 0], '<i4', (2,)), ([1], '<i8', (1,)), ([1, 0], '<i4', (2, 1))],
 }
+ARRAY_KINDS = ('array', 'arrayx')
+
+
+def vkeyx(v):
+    """Strict identity of an array value: dtype, shape and contents."""
+    a = np.asarray(v)
+    return (a.dtype.str, a.shape, tuple(a.ravel().tolist()))
 
 
 def vkey(v):
@@ -75,7 +95,12 @@ class Values:
             self.pool = [-1.5, 0.0, 1.0, 2.5, 7.0]
         else:
             self.pool = POOLS[kind]
-        self.by_key = {vkey(v): i for i, v in enumerate(self.pool)}
+        if kind == 'arrayx':
+            self.pool = [np.array(d, dtype=t).reshape(sh) for d, t, sh in self.pool]
+            self.key = vkeyx
+        else:
+            self.key = vkey
+        self.by_key = {self.key(v): i for i, v in enumerate(self.pool)}
 
     def py(self, i, wrap=False):
         """Python value of id i as handed to the implementation."""
@@ -86,8 +111,8 @@ class Values:
             self.keep.append(v)
             return v
         v = self.pool[i]
-        if self.kind == 'array':
-            v = np.array(v)
+        if self.kind in ARRAY_KINDS:
+            v = np.array(v)         # a fresh array object every time
             return ComparableArrayWrapper(v) if wrap else v
         if self.kind == 'list':
             return list(v)
@@ -96,7 +121,7 @@ class Values:
     def vid(self, v):
         if self.kind == 'nan' and isinstance(v, float) and v != v:
             return self.nan_ids.get(id(v), -7)
-        return self.by_key.get(vkey(v), -5)
+        return self.by_key.get(self.key(v), -5)
 
     def is_nan_id(self, i):
         return self.kind == 'nan' and i >= 100
@@ -133,8 +158,8 @@ def gres_impl(res, k, V):
     if k[0] == 0:
         return [0, V.vid(res)]
     res = np.asarray(res)
-    if V.kind in ('tuple', 'list', 'array'):
-        return [1, [V.vid(r) for r in res]] if res.ndim == 2 or len(res) else [1, []]
+    if V.kind in ('tuple', 'list', 'array', 'arrayx'):
+        return [1, [V.vid(r) for r in res]] if res.ndim >= 2 or len(res) else [1, []]
     return [1, [V.vid(r) for r in res.tolist()]] if V.kind != 'nan' else [1, [float(r) for r in res]]
 
 
@@ -281,13 +306,13 @@ def gen_op(rng, N, kind, events=None):
     if r < 0.13:
         return [0, gen_key(rng, N)]
     if r < 0.21:
-        o = rng.randrange(2 if kind in ('array', 'nan') else 6)
+        o = rng.randrange(2 if kind in ('array', 'arrayx', 'nan') else 6)
         return [1, o, rng.randrange(nv)]
     if r < 0.37:
         v = rng.choice([[], [rng.randrange(nv)], [rng.randrange(nv)]])
         if nan and v and rng.random() < 0.4:
             v = [100 + rng.randrange(1000, 2000)]
-        e = rng.randrange(N) if rng.random() < 0.9 else rng.choice([N, N + 1, N - 1, 0])
+        e = rng.randrange(N) if rng.random() < 0.88 else rng.choice([N, N + 1, N - 1, 0, -1, -2, N + 3])
         return [2, e, v]
     if r < 0.48:
         return [3, rng.randrange(nv)]
@@ -319,7 +344,7 @@ def gen_op(rng, N, kind, events=None):
 
 
 def gen_case(rng, kind=None, maxn=14):
-    kind = kind or rng.choice(['int', 'int', 'str', 'str', 'tuple', 'list', 'array'])
+    kind = kind or rng.choice(['int', 'int', 'str', 'str', 'tuple', 'list', 'array', 'arrayx', 'arrayx'])
     N = rng.randint(1, maxn) if rng.random() < 0.9 else rng.choice([1, 2, maxn])
     r = rng.random()
     k = N if r < 0.06 else rng.randint(1, min(N, 8))          # 6 %: one event per dump (maximal)
@@ -335,7 +360,10 @@ def gen_case(rng, kind=None, maxn=14):
     if kind == 'nan':
         vals = [v if rng.random() < 0.5 else 100 + j for j, v in enumerate(vals)]
     ops = [gen_op(rng, N, kind, ev) for _ in range(rng.choice([1, 2, 3, 4, 5, 6, 6, 7, 8]))]
-    return dict(kind=kind, values=vals, events=ev, ops=ops)
+    case = dict(kind=kind, values=vals, events=ev, ops=ops)
+    if kind in ARRAY_KINDS and rng.random() < 0.3:
+        case['bare'] = 1            # bare (unwrapped, unhashable) ndarrays handed to the constructor
+    return case
 
 
 # ---------------------------------------------------------------------------------------------
@@ -374,7 +402,7 @@ def in_domain(op, st):
     if t == 0 and op[1][0] == 2:
         return len(op[1][1]) == N
     if t == 2:
-        return 0 <= op[1] < N
+        return True         # since katdal d362220 every integer is answered as documented: IndexError outside 0 <= e < N
     if t in (4, 5):
         return segs_ok(op[1])
     if t in (6, 10, 16):
@@ -392,7 +420,7 @@ def run_case(ctx, case, mout, nanmode=False, note=True):
     V = Values(case['kind'])
     sig0 = 'kind=%s;' % case['kind']
     try:
-        cd = CategoricalData([V.py(i, wrap=True) for i in case['values']], np.array(case['events']))
+        cd = CategoricalData([V.py(i, wrap=not case.get('bare')) for i in case['values']], np.array(case['events']))
         st = state_impl(cd, V)
     except Exception as e:
         ctx.disagree(sig0 + 'op=init;symptom=raises:%s' % type(e).__name__, case, repr(e), mout[0] if mout else None,
@@ -401,6 +429,13 @@ def run_case(ctx, case, mout, nanmode=False, note=True):
     if mout is None:
         mout = [None]
     mst = mout[0]
+    evs = list(case['events'])
+    want = [v for v, (a, b) in zip(case['values'], zip(evs, evs[1:])) for _ in range(b - a)]
+    if not nanmode and st[3] != want:
+        ctx.disagree(sig0 + 'op=init;symptom=per_dump_list', case, st, mst,
+                     'the per-dump list of a freshly built series is not the given values over the given events '
+                     '(values merged / indices wrong)', spec=want)
+        return
     if mst is not None and not same_state(st, mst, nanmode):
         ctx.disagree(sig0 + 'op=init;symptom=state', case, st, mst, 'constructor state differs from model', kind='tie')
         return
@@ -433,6 +468,8 @@ def run_case(ctx, case, mout, nanmode=False, note=True):
             # no model binary (searching): python-side invariants only
             if err is None and dom and t in MUTATING and not wf_state(obs[1], nan=nanmode):
                 ctx.disagree(sig + 'symptom=invariant', sub, obs, None, 'invariants broken after operation')
+            if err is None and dom and not nanmode:
+                py_oracle(ctx, sig, sub, op, cur, obs)
             if err is not None:
                 return
             cur = obs[1] if t in MUTATING else (obs[2] if t == 6 and op[3] else cur)
@@ -443,7 +480,11 @@ def run_case(ctx, case, mout, nanmode=False, note=True):
                              '%s raised %r inside the documented domain' % (name, err))
             return
         if mo == [-1]:
-            if dom:
+            if dom and t == 2 and not 0 <= op[1] < cur[2][-1]:
+                ctx.disagree(sig + 'symptom=add_outside_accepted', sub, obs, mo,
+                             'add(event) with an event outside 0 <= event < N did not raise: the container is silently '
+                             'corrupted (index without event / negative dump)', spec=[-1])
+            elif dom:
                 ctx.disagree(sig + 'symptom=model_rejects', sub, obs, mo, 'implementation answers, model raises', kind='tie')
             return
         if not dom:
@@ -530,6 +571,43 @@ def run_case(ctx, case, mout, nanmode=False, note=True):
                 ctx.disagree(sig + 'symptom=len', sub, obs[1], mo[1], 'len() is not the number of events', spec=len(cur[1]))
         if len(cur[1]) == 0:
             return
+
+
+PYCMP = [lambda a, b: a == b, lambda a, b: a != b, lambda a, b: a < b, lambda a, b: a > b,
+         lambda a, b: a <= b, lambda a, b: a >= b]
+
+
+def py_oracle(ctx, sig, sub, op, cur, obs):
+    """The documented answers on the explicit per-dump list, in Python: used while searching WITHOUT a model binary
+    (cur = the state [uv, idx, ev, expand] before the operation, values as ids)."""
+    t = op[0]
+    X = [None] * cur[2][0] + list(cur[3])
+    if t == 1:
+        want = [int(x is not None and PYCMP[op[1]](x, op[2])) for x in X]
+        if obs[1] != want:
+            ctx.disagree(sig + 'symptom=differs_from_per_dump_list', sub, obs[1], None,
+                         'comparison differs from the same comparison on the explicit per-dump list', spec=want)
+    elif t == 0 and op[1][0] == 0 and 0 <= op[1][1] < len(X) and X[op[1][1]] is not None:
+        if obs[1] != [0, X[op[1][1]]]:
+            ctx.disagree(sig + 'symptom=differs_from_per_dump_list', sub, obs[1], None,
+                         'cd[dump] differs from the explicit per-dump list', spec=[0, X[op[1][1]]])
+    elif t in (3, 7, 4):
+        new = obs[1][3]
+        old = list(cur[3])
+        if t == 3:
+            want, last = [], None
+            for x in old:
+                if x == op[1]:
+                    if last is not None:
+                        want.append(last)
+                else:
+                    want.append(x)
+                    last = x
+        else:
+            want = old
+        if new != want:
+            ctx.disagree(sig + 'symptom=per_dump_list', sub, new, None,
+                         'per-dump list after %s is not the documented one' % OPN[t], spec=want)
 
 
 def nanclass(l, V):
@@ -620,13 +698,17 @@ def wire_op(op):
 
 
 def wire_case(case):
-    return [112, [case['values'], case['events'], [wire_op(o) for o in case['ops']]]]
+    return [115, [case['values'], case['events'], [wire_op(o) for o in case['ops']]]]
 
 
 def model_outputs(ctx, cases):
     if not ctx.model_ok:
         return [None] * len(cases)
-    return ctx.model([wire_case(c) for c in cases])
+    try:
+        return ctx.model([wire_case(c) for c in cases])
+    except Exception as e:          # the wire was left out of a partial driver: search with the Python oracles only
+        ctx.extra['model_unavailable'] = repr(e)[:200]
+        return [None] * len(cases)
 
 
 def check_slices(ctx):
@@ -660,7 +742,7 @@ def uio_case(ctx, case):
     kind, ids = case['uio'], case['values']
     V = Values(kind)
     sig = 'kind=%s;op=unique_in_order;' % kind
-    els = [V.py(i, wrap=True) for i in ids]
+    els = [V.py(i, wrap=not case.get('bare')) for i in ids]
     try:
         u1 = unique_in_order(els)
         u2, inv = unique_in_order(els, return_inverse=True)
@@ -673,7 +755,7 @@ def uio_case(ctx, case):
     obs = [[V.vid(unw(x)) for x in u2], [int(i) for i in inv]]
     ctx.traces_validated += 1
     ctx.count('op=unique_in_order')
-    ctx.count('uio_path=' + ('tokenize' if kind in ('list', 'array') else 'dict'))
+    ctx.count('uio_path=' + ('tokenize' if kind in ('list', 'array', 'arrayx') else 'dict'))
     if not isinstance(u1, list) or [V.vid(unw(x)) for x in u1] != obs[0] or [V.vid(unw(x)) for x in u3] != obs[0]:
         ctx.disagree(sig + 'symptom=return_inverse_changes_result', case, [V.vid(unw(x)) for x in u1], obs[0],
                      'unique_in_order without return_inverse differs from the one with it')
@@ -695,10 +777,13 @@ def uio_case(ctx, case):
 
 
 def gen_uio(rng):
-    kind = rng.choice(['int', 'str', 'tuple', 'list', 'array'])
+    kind = rng.choice(['int', 'str', 'tuple', 'list', 'array', 'arrayx', 'arrayx'])
     n = rng.choice([0, 1, 2, 3, 5, 8, 12])
     nv = rng.randint(1, 5)
-    return dict(uio=kind, values=[rng.randrange(nv) for _ in range(n)])
+    case = dict(uio=kind, values=[rng.randrange(nv) for _ in range(n)])
+    if kind in ARRAY_KINDS and rng.random() < 0.4:
+        case['bare'] = 1
+    return case
 
 
 def run_uio(ctx, cases):
@@ -719,7 +804,7 @@ def run_uio(ctx, cases):
             from katdal.categorical import ComparableArrayWrapper, unique_in_order
             V = Values(c['uio'])
             try:
-                u2, inv = unique_in_order([V.py(i, wrap=True) for i in c['values']], return_inverse=True)
+                u2, inv = unique_in_order([V.py(i, wrap=not c.get('bare')) for i in c['values']], return_inverse=True)
             except Exception:
                 continue
             obs = [[V.vid(ComparableArrayWrapper.unwrap(x)) for x in u2], [int(i) for i in inv]]
@@ -729,6 +814,183 @@ def run_uio(ctx, cases):
                              kind='tie')
         ctx.note_case(('uio', c['uio'], tuple(c['values'])), nontrivial=len(set(c['values'])) < len(c['values']),
                       sample=None)
+
+
+
+# ---------------------------------------------------------------------------------------------
+# several containers with shared storage (Model/CategoricalH.v, wire_114): histories over parent / parts / concatenated
+# results / independent series, interleaved; after EVERY operation the value of EVERY container is compared
+
+HOPN = {0: 'make', 2: 'add', 3: 'remove', 4: 'add_unmatched', 5: 'align', 7: 'remove_repeats', 16: 'partition',
+        9: 'concatenate'}
+
+
+def heap_apply(objs, callers, op, V, bare=False):
+    """Apply one wire_114 operation to the real containers.  Returns the ids it returned / worked on (None = raised)."""
+    from katdal.categorical import CategoricalData, concatenate_categorical
+    t = op[0]
+    try:
+        if t == 0:
+            arr = np.array(op[2])
+            callers.append((arr, arr.copy()))
+            objs.append(CategoricalData([V.py(i, wrap=not bare) for i in op[1]], arr))
+            return [len(objs) - 1]
+        if t == 9:
+            if any(i >= len(objs) for i in op[1]):
+                return None
+            res = concatenate_categorical([objs[i] for i in op[1]], allow_repeats=bool(op[2]))
+            for j, o in enumerate(objs):
+                if res is o:
+                    return [j]
+            objs.append(res)
+            return [len(objs) - 1]
+        i = op[1]
+        if i >= len(objs):
+            return None
+        cd = objs[i]
+        if t == 2:
+            cd.add(op[2], V.py(op[3][0]) if op[3] else None)
+        elif t == 3:
+            cd.remove(V.py(op[2]))
+        elif t == 4:
+            cd.add_unmatched(np.array(op[2], dtype=int), op[3])
+        elif t == 5:
+            cd.align(np.array(op[2], dtype=int))
+        elif t == 7:
+            cd.remove_repeats()
+        elif t == 16:
+            parts = cd.partition(np.array(op[2], dtype=int))
+            n = len(objs)
+            objs.extend(parts)
+            return list(range(n, n + len(parts)))
+        return [i]
+    except (IndexError, ValueError):
+        return None
+
+
+def gen_heap_op(rng, objs):
+    """One operation that the model describes exactly (documented or proved-as-it-is arguments), given the real containers."""
+    if not objs or (len(objs) < 7 and rng.random() < 0.12):
+        vs, ev = gen_series(rng, 9)
+        if rng.random() < 0.15 and ev[-1] > 1:
+            ev = [rng.randint(1, ev[1] - 1 if len(ev) > 2 and ev[1] > 1 else ev[-1] - 1)] + ev[1:]   # first event after dump 0
+            if any(a >= b for a, b in zip(ev, ev[1:])):
+                ev = [0] + ev[1:]
+        return [0, vs, ev]
+    i = rng.randrange(len(objs)) if rng.random() < 0.7 else len(objs) - 1 - rng.randrange(min(3, len(objs)))
+    cd = objs[i]
+    N = int(cd.events[-1])
+    empty = len(cd.indices) == 0
+    r = rng.random()
+    if len(objs) == 1 and not empty and N >= 1 and rng.random() < 0.35:
+        r = 0.7                     # start sharing early: partition the only container
+    if empty or N < 1 or r < 0.30:
+        e = rng.randrange(N) if N > 0 and rng.random() < 0.85 else rng.choice([N, N + 1, -1, 0])
+        v = [rng.randrange(5)] if (empty or rng.random() < 0.7) else []
+        return [2, i, e, v]
+    if r < 0.45:
+        return [3, i, rng.randrange(5)]
+    if r < 0.52:
+        sg = gen_segs(rng, N, rng.random() < 0.8, False)
+        return [4, i, sg, rng.choice([0, 1, 1, 2])] if segs_ok(sg) else [7, i]
+    if r < 0.62:
+        sg = gen_segs(rng, N, rng.random() < 0.85, False)
+        return [5, i, sg] if segs_ok(sg) and sg[-1] >= 1 and (len(sg) > 1 or sg[0] > 0) else [7, i]
+    if r < 0.68:
+        return [7, i]
+    if r < 0.86 and len(objs) < 12:
+        sg = gen_segs(rng, N, rng.random() < 0.8, False)
+        return [16, i, sg] if segs_ok(sg, 2) else [7, i]
+    if len(objs) < 12:
+        k = rng.choice([1, 1, 2, 2, 3])
+        parts = [rng.randrange(len(objs)) for _ in range(k)]
+        if rng.random() < 0.5 and len(objs) >= 2:
+            a = rng.randrange(len(objs) - 1)
+            parts = list(range(a, min(len(objs), a + rng.randint(1, 3))))       # consecutive objects: the parts of a partition
+        if all(len(objs[j].indices) > 0 and objs[j].events[0] == 0 for j in parts):
+            return [9, parts, rng.choice([0, 0, 1])]
+    return [3, i, rng.randrange(5)]
+
+
+def gen_heap_case(rng):
+    kind = rng.choice(['int', 'str', 'str', 'list', 'array', 'arrayx'])
+    V = Values(kind)
+    bare = int(kind in ARRAY_KINDS and rng.random() < 0.3)
+    objs, callers, ops = [], [], []
+    for _ in range(rng.randint(3, 10)):
+        op = gen_heap_op(rng, objs)
+        ops.append(op)
+        heap_apply(objs, callers, op, V, bare)
+    return dict(kind=kind, heap_ops=ops, bare=bare)
+
+
+def run_heap_case(ctx, case, mout):
+    """mout = answer of wire_114 (None while searching without a model): per operation [[raised? ids], [states]]."""
+    V = Values(case['kind'])
+    objs, callers = [], []
+    sig0 = 'kind=%s;stream=containers;' % case['kind']
+    prev = []
+    for n, op in enumerate(case['heap_ops']):
+        name = HOPN[op[0]]
+        sig = sig0 + 'op=%s;' % name
+        sub = dict(case, heap_ops=case['heap_ops'][:n + 1])
+        nobj = len(objs)
+        try:
+            ids = heap_apply(objs, callers, op, V, case.get('bare'))
+            states = [state_impl(o, V) for o in objs]
+        except Exception as e:
+            ctx.disagree(sig + 'symptom=raises:%s' % type(e).__name__, sub, repr(e), mout[n] if mout else None,
+                         '%s raised %r' % (name, e))
+            return
+        ctx.traces_validated += 1
+        ctx.count('heap_op=' + name)
+        ctx.count('heap_objs=%d' % min(len(objs), 8))
+        # ---- properties that need no model: an operation changes only the container it is addressed to, an operation
+        # that raises changes nothing, new containers do not disturb old ones, the caller's arrays are never written
+        target = op[1] if op[0] in (2, 3, 4, 5, 7) else None
+        for j in range(nobj):
+            if j != target and states[j] != prev[j]:
+                ctx.disagree(sig + 'symptom=other_container_changed', sub, [j, states[j]], [j, prev[j]],
+                             '%s on container %s changed container %d' % (name, target, j), spec=[j, prev[j]])
+                return
+        if ids is None and states[:nobj] != prev:
+            ctx.disagree(sig + 'symptom=raised_but_changed', sub, states, prev, '%s raised but changed its container' % name,
+                         spec=prev)
+            return
+        for arr, cp in callers:
+            if arr.shape != cp.shape or (arr != cp).any():
+                ctx.disagree(sig + 'symptom=caller_array_written', sub, arr.tolist(), cp.tolist(),
+                             'the event array handed to the constructor was modified', spec=cp.tolist())
+                return
+        if ids is not None and op[0] in (2, 3, 4, 5, 7, 16, 9) and \
+                not all(wf_state(states[j]) and all(u >= 0 for u in states[j][0]) for j in ids):
+            ctx.disagree(sig + 'symptom=invariant', sub, [states[j] for j in ids], None, 'invariants broken after %s' % name)
+            return
+        if ids is not None and op[0] == 2 and not 0 <= op[2] < prev[op[1]][2][-1]:
+            ctx.disagree(sig + 'symptom=add_outside_accepted', sub, states[op[1]], prev[op[1]],
+                         'add(event) outside 0 <= event < N did not raise', spec=prev[op[1]])
+            return
+        prev = states
+        # ---- tie: the heap model
+        if mout is not None:
+            mo = mout[n] if n < len(mout) else None
+            want_ids = [1, ids] if ids is not None else [0]
+            if mo is None or mo[0] != want_ids or mo[1] != states:
+                what = 'result' if (mo is None or mo[0] != want_ids) else \
+                    'container_%d' % next((j for j in range(min(len(states), len(mo[1]))) if mo[1][j] != states[j]), -1)
+                ctx.disagree(sig + 'symptom=tie:%s' % what, sub, [want_ids, states], mo,
+                             '%s: containers differ from the heap model (Model/CategoricalH.v)' % name, kind='tie')
+                return
+
+
+def heap_model(ctx, cases):
+    if not ctx.model_ok:
+        return [None] * len(cases)
+    try:
+        return ctx.model([[114, [0, c['heap_ops']]] for c in cases])
+    except Exception as e:
+        ctx.extra['model_unavailable'] = repr(e)[:200]
+        return [None] * len(cases)
 
 
 def nontrivial(case):
@@ -797,6 +1059,14 @@ def run(ctx):
         ctx.count('kind=nan')
     # unique_in_order on its own
     run_uio(ctx, [gen_uio(rng) for _ in range(ctx.scale(1500, 15000))])
+    # several containers with shared storage
+    hc = [c for c in corpus_cases() if 'heap_ops' in c] + [gen_heap_case(rng) for _ in range(ctx.scale(2500, 30000))]
+    for c, o in zip(hc, heap_model(ctx, hc)):
+        run_heap_case(ctx, c, o)
+        ctx.note_case(('heap', c['kind'], repr(c['heap_ops'])), nontrivial=len(c['heap_ops']) >= 3 and
+                      any(o2[0] in (16, 9) for o2 in c['heap_ops']), sample=None)
+        ctx.count('kind=' + c['kind'])
+        ctx.count('stream=containers')
     # thorough: cross-check extraction inside Coq on a sample
     if ctx.tier == 'thorough' and ctx.model_ok:
         from vh import core
@@ -820,6 +1090,10 @@ def replay(ctx, doc):
     case = doc.get('case') or {}
     if 'slice' in case:
         check_slices(ctx)
+        return
+    if 'heap_ops' in case:
+        run_heap_case(ctx, case, heap_model(ctx, [case])[0])
+        ctx.note_case(('heap', case['kind'], repr(case['heap_ops'])))
         return
     if 'uio' in case:
         uio_case(ctx, case)
